@@ -53,6 +53,30 @@ CLAIMS["C15"] = dict(
     technique=TECH,
 )
 
+CLAIMS["C16"] = dict(
+    category="proof",
+    text="Every lambda of problog.logic._arithmetic_functions is located by its key in the current source and proved "
+         "against the value Prolog prescribes on integer and on float arguments (+ - * / // mod rem div ** ^ unary "
+         "ops, bit operators, ceiling/floor/truncate/round, float_integer_part/float_fractional_part, sign, "
+         "constants), including the Python-specific hazards (complex results, ZeroDivisionError, result type). "
+         "Non-lambda bindings, compute_function's error conversion, is/2 on expression trees, arithmetic comparisons, "
+         "between/succ/plus/length/functor/arg/=../type tests are bounded stand-ins through the real engine against "
+         "an independent reference evaluator.",
+    design_ref="DESIGN.md section 2, C16 and Appendix B",
+    technique=TECH,
+)
+CLAIMS["C30"] = dict(
+    category="proof",
+    text="The functions that turn a probability annotation into a weight (SemiringProbability/LogProbability value, "
+         "in_domain, negate, pos_value, neg_value, ad_complement) are proved to raise InvalidValue for every value "
+         "more than 1e-6 outside [0,1] and to accept every value inside, and the AD complement is proved to leave the "
+         "semiring's domain exactly when the head probabilities sum to more than 1 (any number of heads). The path "
+         "from a program to those calls (ConstraintAD.update_weights, extract_weights, evaluators) is a bounded "
+         "stand-in over generated programs; one known finding (AD sum unchecked when only some heads are grounded).",
+    design_ref="DESIGN.md section 2, C30",
+    technique=TECH,
+)
+
 NA = {
     "C22": "convergence of sample frequencies is a statistical limit, not a pre/post-condition of any call; a "
            "Hoeffding test would be statistical testing, a different technique family",
